@@ -77,6 +77,9 @@ def main():
         elif kind < 0.35:
             B = [[t[0], 0, t[2] + [[1, 0], [0, 0]]] for t in A]   # B = A * n_0: monomials of different length with a common prefix
         s = {"kind": "algebra", "id": n, "M": M, "A": A, "B": B, "alpha": [rng.choice([2, -1, 0]), 0]}
+        if k % 3 == 0:      # scalars of magnitude 2^-24 .. 2^-40: alpha A is alpha A, not zero
+            s["alpha"] = [rng.choice([1, -3, 2]), 0]
+            s["alpha_log2"] = rng.choice([24, 30, 36, 40])
         if rng.random() < 0.4:
             s["C"] = poly()
         scen.append(s)
